@@ -17,8 +17,9 @@ pub fn lierr(e: &LanguageIdentifierError) -> String {
 }
 pub fn fmt_li(li: &LanguageIdentifier) -> String {
     let dbg = format!("{:?}", li);
-    let vs: Vec<&str> = li.variants().map(|v| v.as_str()).collect();
-    let v = if dbg.contains("variants: None") {
+    let (vs0, lfv) = exact(li.variants());
+    let vs: Vec<&str> = vs0.iter().map(|v| v.as_str()).collect();
+    let v = if !lfv.is_empty() { "LENFAIL-variants".to_string() } else if dbg.contains("variants: None") {
         if !vs.is_empty() { "INCONSISTENT-variants".to_string() } else { "none".to_string() }
     } else {
         format!("[{}]", vs.join(","))
@@ -46,7 +47,17 @@ pub fn langid(v: &[u8]) -> String {
         if r2 != r { return format!("INCONSISTENT from_str {:?} vs from_bytes {:?}", r2, r); }
     }
     if unic_langid::LanguageIdentifier::from_bytes(v).ok() != r.as_ref().ok().cloned() { return "INCONSISTENT unic_langid::LanguageIdentifier (facade) vs unic_langid_impl".into(); }
+    if let Ok(li) = &r { if let Some(e) = fmt_flags(li) { return e; } }
     match r { Ok(li) => format!("OK {}", fmt_li(&li)), Err(e) => lierr(&e) }
+}
+/// the (doc-hidden, public) iterator entry point that Locale parsing is built on: result plus how many
+/// subtags it left unconsumed (the remainder is always a suffix of the subtag list, so its length identifies it)
+pub fn li_iter(v: &[u8], allow_extension: bool) -> String {
+    let mut it = v.split(|c| *c == b'-' || *c == b'_').peekable();
+    match LanguageIdentifier::try_from_iter(&mut it, allow_extension) {
+        Ok(li) => format!("OK {} R{:x}", fmt_li(&li), it.count()),
+        Err(e) => lierr(&e),
+    }
 }
 pub fn li_canonicalize(v: &[u8]) -> String {
     if unic_langid::canonicalize(v).ok() != unic_langid_impl::canonicalize(v).ok() { return "INCONSISTENT unic_langid::canonicalize vs unic_langid_impl::canonicalize".into(); }
@@ -182,6 +193,8 @@ fn parse_ops(out: &mut Out, s: &[u8]) {
     out.case("langid", &[s], || langid(s));
     out.case("li_canonicalize", &[s], || li_canonicalize(s));
     out.case("li_roundtrip", &[s], || li_roundtrip(s));
+    out.case("li_iter", &[s, b"0"], || li_iter(s, false));
+    out.case("li_iter", &[s, b"1"], || li_iter(s, true));
 }
 
 /// from_parts with the variants in a random order, possibly duplicated
@@ -299,6 +312,18 @@ pub fn run(out: &mut Out, tier: &str, rng: &mut Rng) {
         out.case("li_cmp", &[&a, &b], || li_cmp(&a, &b));
         let t = if rng.chance(1, 2) { LanguageIdentifier::from_bytes(&a).map(|x| x.to_string()).unwrap_or_default().into_bytes() } else { b.clone() };
         if std::str::from_utf8(&t).is_ok() { out.case("li_eq_str", &[&a, &t], || li_eq_str(&a, &t)); }
+        // the canonical text with one character replaced by a 2- or 3-byte character (never equal; never a panic)
+        if rng.chance(1, 3) {
+            if let Ok(s) = String::from_utf8(t.clone()) {
+                let mut c: Vec<char> = s.chars().collect();
+                if !c.is_empty() {
+                    let i = rng.below(c.len());
+                    c[i] = if rng.chance(1, 2) { '\u{f1}' } else { '\u{20ac}' };
+                    let u: String = c.into_iter().collect();
+                    out.case("li_eq_str", &[&a, u.as_bytes()], || li_eq_str(&a, u.as_bytes()));
+                }
+            }
+        }
     }
     out.comment("C11/C12: near pairs (one or two characters apart; 8-letter languages with a shared stem)");
     let n = if thorough { 200_000 } else { 20_000 };
